@@ -971,6 +971,11 @@ def tsan_pass(st, tier):
     import re
     m = re.search(r"tsan-pass: (\d+) thread launches, (\d+) mismatches", out)
     res = {"reports": n, "repetitions": reps, "cold_start_processes": cold_n, "thread_launches": int(m.group(1)) if m else 0, "result_mismatches": int(m.group(2)) if m else -1, "first_report": first}
+    if m is None and "store into a read-only shared object faulted" in out:
+        # the shared schedule / object lives in a page the threads may only read: a store into it ends the pass at once
+        res["result_mismatches"] = 0
+        res["first_report"] = first or "store into a read-only shared object"
+        return res
     if m is None:
         raise EngineError("tsan pass produced no summary\n" + out[-1500:])
     if int(m.group(2)) > 0:
